@@ -83,6 +83,10 @@ def main():
     c.rule = "catalogue + %d random models x partitions, all indices, container and one-by-one routes, all c^+_i c_j; non-trivial = distinct (model, partition)" % nrand
     c.trusted = ["TLC", "harness rotation U_to.part.U_from^+ (Eigen arithmetic)"]
     c.assumptions = ["tolerance 1e-9 per entry", "real build"]
+    # call histories of the documented workflow (spec/Workflow.tla): repeated prepare()/compute() are no-ops, a call changes the data of
+    # its own object only, and whatever the history, the finished object holds the data of the canonical linear order
+    import workflow
+    workflow.attach(c, {"CX", "C", "QA", "OPS"}, 'field operators')
     c.finish()
 
 
